@@ -77,17 +77,23 @@ def _run(ch: Choices, focus: str = "C11", params: Optional[dict] = None) -> dict
     sub_models: List[dict] = []
     sub_problems = []
     if use_split:
+        s0, s0_it, s0_taken = None, None, []
         if ch.chance(1, 3, "solver_before_split"):
             # a realistic history: the problem was first given to a sequential solver (constructed, maybe run), then split
             try:
                 s0 = nucsio.build_solver(problem, gen.DEFAULT_CONFIG)
                 if ch.chance(1, 2, "solver_before_split.run"):
-                    next(s0.solve(), None)
+                    s0_it = s0.solve()
+                    x = next(s0_it, None)
+                    if x is not None:
+                        s0_taken.append(tuple(int(v) for v in x))
             except Exception as e:
                 if classify_exception(e) == "harness":
                     raise
+                s0 = None
             out["probes"]["solver_constructed_before_split"] += 1
         before = snapshot_problem(problem)
+        before_all = snapshot_everything(problem)
         try:
             sub_problems = problem.split(k, svar)
         except Exception as e:
@@ -98,6 +104,30 @@ def _run(ch: Choices, focus: str = "C11", params: Optional[dict] = None) -> dict
         after = snapshot_problem(problem)
         if before != after:
             viol("C12", "original-changed", f"[{out['model']}] split({k}, {svar}) changed the original problem: {before} -> {after}")
+        after_all = snapshot_everything(problem)
+        if before_all != after_all:
+            diff = sorted(k_ for k_ in set(before_all) | set(after_all) if before_all.get(k_) != after_all.get(k_))
+            viol("C12", "original-changed", f"[{out['model']}] split({k}, {svar}) changed attributes {diff} of the original problem object "
+                 f"({'a solver had been constructed on it' if s0 is not None else 'never given to a solver'})")
+        if s0 is not None and ch.chance(1, 2, "solver_before_split.resume"):
+            # the solver that was built on the original before the split is used (or used further) after it
+            CLOCK.install()
+            CLOCK.set_budget(WORKER_BUDGET * 4)
+            try:
+                rest = [tuple(int(v) for v in x) for x in (s0_it if s0_it is not None else s0.solve())]
+                if sorted(s0_taken + rest) != ref:
+                    viol("C12", "solver-on-original-differs-after-split", f"[{out['model']}] a solver built on the original before split({k}, {svar}) "
+                         f"enumerates {len(s0_taken) + len(rest)} solutions after it, the reference has {len(ref)}")
+            except StepBudgetExceeded:
+                pass  # termination of the sequential solver is judged elsewhere (C04)
+            except Exception as e:
+                if classify_exception(e) == "harness":
+                    raise
+                viol("C12", "solver-on-original-broken-by-split", f"[{out['model']}] a solver built on the original before split({k}, {svar}) "
+                     f"raises {type(e).__name__}: {e} at {where_of(e)} when it is used after the split")
+            finally:
+                CLOCK.clear_budget()
+            out["probes"]["solver_on_original_used_after_split"] += 1
         for j, sp in enumerate(sub_problems):
             snap = snapshot_problem(sp)
             diff = [i for i, (a, b) in enumerate(zip(before["shr"], snap["shr"])) if a != b]
@@ -315,6 +345,17 @@ def snapshot_problem(p) -> dict:
         "off": [int(x) for x in p.dom_offsets_lst],
         "props": [[list(map(int, vs)), int(alg), list(map(int, params))] for vs, alg, params in p.propagators],
     }
+
+
+def snapshot_everything(p) -> dict:
+    """Every attribute of the problem object, arrays computed by init() included, in a comparable form."""
+    out = {}
+    for k_, v in vars(p).items():
+        if hasattr(v, "tolist") and hasattr(v, "dtype"):
+            out[k_] = [str(v.dtype), list(v.shape), v.tolist()]
+        else:
+            out[k_] = copy.deepcopy(v)
+    return out
 
 
 def new_parent(solvers):
